@@ -1,3 +1,479 @@
-/- C02: property theorems (stub, not yet built) -/
+/-
+C02 — property theorems over the TopologyGroup model (`Karp/Model/Topo.lean`).
+
+The property is about the end state of a whole scheduling pass; the pass reaches that state through one
+mechanism: for every pod and every candidate node it asks each topology group for the admissible domains
+(`TopologyGroup.Get`), and after committing it `Record`s the placement.  The theorems below state, for every
+group state reachable by any sequence of `Record`/`Register`/`Unregister` calls and for every pair of
+pod/node domain requirements, what `Get` can return, and lift that to unbounded sequences of
+ask-then-record steps:
+
+* anti-affinity : only domains with count zero are offered, so however many self-matching pods are placed a
+                  domain's count never passes `max initial 1` (`C02_anti_*`);
+* affinity      : an offered domain holds a match, or the pod matches itself and no domain it can use holds
+                  one, and then exactly one domain is offered; a self-matching set therefore ends in one
+                  domain (`C02_affinity_*`);
+* spread        : the offered domain satisfies `count + self − globalMin ≤ maxSkew` with the kube-scheduler
+                  reading of `globalMin` (zero below `minDomains`), so the skew among the counted domains never
+                  passes `max initial maxSkew` over any number of placements (`C02_spread_*`).
+
+The link to the end state of the real pass is the whole-pass oracle `c02.pass` (Karp/Spec/InterPod.lean);
+the link of this model to `topologygroup.go` is the op-sequence correspondence `c02.group`.
+-/
+import Karp.Proofs.Topo
+import Karp.Spec.TopoSpec
+
 namespace Karp.C02
+open Karp.Req Karp.Topo Karp.Spec.Topo
+
+/-! ## the index -/
+
+/-- every state reachable from `NewTopologyGroup` keeps `emptyDomains` = "registered with count zero" -/
+theorem C02_index_invariant (kind : Kind) (isHost : Bool) (maxSkew : Int) (minDomains : Option Int) (ai : Bool)
+    (ds : List Val) (ops : List Topo.Op) :
+    ((TG.new kind isHost maxSkew minDomains ai ds).run ops).Inv :=
+  inv_run _ _ (inv_new ..)
+
+/-! ## anti-affinity -/
+
+/-- `nextDomainAntiAffinity` offers only domains in which no matching pod has been counted -/
+theorem C02_anti_sound (t : TG) (h : t.Inv) (pod node : Req) (d : Val) (hd : d ∈ t.antiGet pod node) :
+    t.domains.cnt d = 0 := by
+  have hz : ∀ x, x ∈ t.empty → t.domains.cnt x = 0 := fun x hx =>
+    cnt_of_cnt? _ _ _ ((h.emptyIff x).1 hx)
+  unfold TG.antiGet at hd
+  split at hd
+  · split at hd
+    · rename_i hc
+      simp only [List.mem_singleton] at hd
+      rw [hd]; simpa using hc
+    · simp at hd
+  · split at hd
+    · rw [List.mem_filter] at hd
+      simp only [Bool.and_eq_true, decide_eq_true_eq] at hd
+      exact hz d hd.2.1
+    · rw [List.mem_filter] at hd
+      exact hz d hd.1
+
+/-- outside the single-hostname shortcut the offered domains are also ones the pod's own requirements allow -/
+theorem C02_anti_pod_compatible (t : TG) (pod node : Req) (d : Val) (hd : d ∈ t.antiGet pod node)
+    (hns : ¬ (t.isHost = true ∧ ∃ h, vals node = [h])) : pod.has d = true := by
+  unfold TG.antiGet at hd
+  split at hd
+  · rename_i h1 h2
+    exact absurd ⟨h1, _, h2⟩ hns
+  · split at hd
+    · rw [List.mem_filter] at hd
+      simp only [Bool.and_eq_true] at hd
+      exact hd.2.2
+    · rw [List.mem_filter] at hd
+      simp only [Bool.and_eq_true] at hd
+      exact hd.2.2
+
+/-- one scheduling step of a pod that carries and matches the term: ask, then block every offered domain the
+    node may still end up in (`Topology.Record` records *all* candidate domains for anti-affinity) -/
+structure AntiStep where
+  pod    : Req
+  node   : Req
+  chosen : List Val
+
+inductive AntiTrace : TG → List AntiStep → Prop
+  | nil (t : TG) : AntiTrace t []
+  | cons (t : TG) (s : AntiStep) (rest : List AntiStep)
+      (hn : s.chosen.Nodup) (hsub : ∀ d ∈ s.chosen, d ∈ t.antiGet s.pod s.node)
+      (hrest : AntiTrace (t.record s.chosen) rest) : AntiTrace t (s :: rest)
+
+def antiRun (t : TG) (steps : List AntiStep) : TG := steps.foldl (fun t s => t.record s.chosen) t
+
+/-- over any number of placements a domain never receives a second matching pod -/
+theorem C02_anti_never_doubles (t : TG) (h : t.Inv) (steps : List AntiStep) (ht : AntiTrace t steps) (d : Val) :
+    (antiRun t steps).domains.cnt d ≤ max (t.domains.cnt d) 1 := by
+  induction ht with
+  | nil t => simp only [antiRun, List.foldl_nil]; omega
+  | cons t s rest hn hsub _ ih =>
+    have hinv : (t.record s.chosen).Inv := inv_foldl _ inv_record1 _ _ h
+    have hstep : (t.record s.chosen).domains.cnt d ≤ max (t.domains.cnt d) 1 := by
+      rw [cnt_record t s.chosen hn d]
+      by_cases hd : d ∈ s.chosen
+      · have := C02_anti_sound t h s.pod s.node d (hsub d hd)
+        simp [hd, this]
+      · simp [hd]; omega
+    have := ih hinv
+    simp only [antiRun, List.foldl_cons] at this ⊢
+    omega
+
+/-! ## affinity -/
+
+/-- a determined answer of `nextDomainAffinity`: every offered domain is allowed by the pod and holds a match,
+    or the pod matches itself, no usable domain holds a match, and it is the only domain offered -/
+theorem affOpts_sound (t : TG) (pod node : Req) (d : Val) (hd : d ∈ t.affOpts pod node) :
+    pod.has d = true ∧ 0 < t.domains.cnt d := by
+  unfold TG.affOpts at hd
+  split at hd
+  · rw [List.mem_filter] at hd
+    simp only [Bool.and_eq_true] at hd
+    exact ⟨hd.2.1, (positive_iff t d).1 hd.2.2⟩
+  · rw [List.mem_filter] at hd
+    simp only [Bool.and_eq_true] at hd
+    exact ⟨hd.2.1.1, (positive_iff t d).1 hd.2.1.2⟩
+
+theorem affBoot_cases (t : TG) (pod node : Req) :
+    t.affBoot pod node = .fixed [] ∨
+    ∃ cs, t.affBoot pod node = .pick cs ∧ ∀ d ∈ cs, pod.has d = true ∧ (t.domains.cnt? d).isSome = true := by
+  unfold TG.affBoot
+  simp only
+  split
+  · refine Or.inr ⟨_, rfl, fun d hd => ?_⟩
+    rw [List.mem_filter, has_inter] at hd
+    simp only [Bool.and_eq_true] at hd
+    exact ⟨hd.2.1, (mem_keys _ _).1 hd.1⟩
+  · split
+    · refine Or.inr ⟨_, rfl, fun d hd => ?_⟩
+      rw [List.mem_filter] at hd
+      exact ⟨hd.2, (mem_keys _ _).1 hd.1⟩
+    · exact Or.inl rfl
+
+/-- a determined answer of `nextDomainAffinity`: every offered domain is allowed by the pod and holds a match,
+    or the pod matches itself, no usable domain holds a match, and it is the only domain offered -/
+theorem C02_affinity_fixed (t : TG) (h : t.Inv) (self : Bool) (pod node : Req) (ds : List Val)
+    (e : t.affGet self pod node = .fixed ds) (d : Val) (hd : d ∈ ds) :
+    pod.has d = true ∧ (0 < t.domains.cnt d ∨ (self = true ∧ NoCompat t pod ∧ ds = [d])) := by
+  unfold TG.affGet at e
+  split at e
+  · -- hostname shortcut
+    split at e
+    · injection e with e; subst e; simp at hd
+    · rename_i hp
+      split at e
+      · rename_i hc
+        injection e with e; subst e
+        simp only [List.mem_singleton] at hd; subst hd
+        exact ⟨by simpa using hp, Or.inl hc⟩
+      · split at e
+        · rename_i hb
+          injection e with e; subst e
+          simp only [List.mem_singleton] at hd; subst hd
+          have := bootstrap_sound t h self pod hb
+          exact ⟨by simpa using hp, Or.inr ⟨this.1, this.2, rfl⟩⟩
+        · injection e with e; subst e; simp at hd
+  · split at e
+    · injection e with e; subst e
+      have := affOpts_sound t pod node d hd
+      exact ⟨this.1, Or.inl this.2⟩
+    · split at e
+      · rcases affBoot_cases t pod node with hb | ⟨cs, hb, _⟩
+        · rw [hb] at e; injection e with e; subst e; simp at hd
+        · rw [hb] at e; cases e
+      · injection e with e; subst e; simp at hd
+
+/-- a bootstrap answer: the pod matches itself, no domain it can use holds a match, and every candidate is a
+    registered domain the pod allows (the implementation offers exactly one of them) -/
+theorem C02_affinity_pick (t : TG) (h : t.Inv) (self : Bool) (pod node : Req) (cs : List Val)
+    (e : t.affGet self pod node = .pick cs) :
+    self = true ∧ NoCompat t pod ∧ ∀ d ∈ cs, pod.has d = true ∧ (t.domains.cnt? d).isSome = true := by
+  unfold TG.affGet at e
+  split at e
+  · split at e
+    · cases e
+    · split at e
+      · cases e
+      · split at e <;> cases e
+  · split at e
+    · cases e
+    · split at e
+      · rename_i hb
+        have hbs := bootstrap_sound t h self pod hb
+        rcases affBoot_cases t pod node with hb' | ⟨cs', hb', hcs⟩
+        · rw [hb'] at e; cases e
+        · rw [hb'] at e; injection e with e; subst e
+          exact ⟨hbs.1, hbs.2, hcs⟩
+      · cases e
+
+/-- the domains of the pod's requirement that hold a match are at most one -/
+def AtMostOne (t : TG) (P : Req) : Prop :=
+  ∀ d d', P.has d = true → P.has d' = true → 0 < t.domains.cnt d → 0 < t.domains.cnt d' → d = d'
+
+/-- the implementation's answer `[d]` is one the model allows -/
+def affChosen (t : TG) (self : Bool) (pod node : Req) (d : Val) : Prop :=
+  (∃ ds, t.affGet self pod node = .fixed ds ∧ d ∈ ds) ∨ (∃ cs, t.affGet self pod node = .pick cs ∧ d ∈ cs)
+
+theorem C02_affinity_step (t : TG) (h : t.Inv) (P node : Req) (d : Val) (hA : AtMostOne t P)
+    (hc : affChosen t true P node d) : AtMostOne (t.record1 d) P := by
+  have key : P.has d = true ∧ (0 < t.domains.cnt d ∨ NoCompat t P) := by
+    rcases hc with ⟨ds, e, hd⟩ | ⟨cs, e, hd⟩
+    · have := C02_affinity_fixed t h true P node ds e d hd
+      exact ⟨this.1, this.2.imp id (fun x => x.2.1)⟩
+    · have := C02_affinity_pick t h true P node cs e
+      exact ⟨(this.2.2 d hd).1, Or.inr this.2.1⟩
+  intro x y hx hy hpx hpy
+  rw [cnt_record1] at hpx hpy
+  rcases key.2 with hpos | hno
+  · have hx' : 0 < t.domains.cnt x := by
+      by_cases e : x = d
+      · rw [e]; exact hpos
+      · simpa [e] using hpx
+    have hy' : 0 < t.domains.cnt y := by
+      by_cases e : y = d
+      · rw [e]; exact hpos
+      · simpa [e] using hpy
+    exact hA x y hx hy hx' hy'
+  · have zero : ∀ z, P.has z = true → z ≠ d → ¬ 0 < t.domains.cnt z := by
+      intro z hz _ hp
+      obtain ⟨c, hc1, hc2⟩ := (cnt_pos_iff _ _).1 hp
+      have := hno z c hc1 hz
+      omega
+    by_cases ex : x = d
+    · by_cases ey : y = d
+      · rw [ex, ey]
+      · exact absurd (by simpa [ey] using hpy) (zero y hy ey)
+    · exact absurd (by simpa [ex] using hpx) (zero x hx ex)
+
+inductive AffTrace (P : Req) : TG → List (Req × Val) → Prop
+  | nil (t : TG) : AffTrace P t []
+  | cons (t : TG) (node : Req) (d : Val) (rest : List (Req × Val))
+      (hc : affChosen t true P node d) (hrest : AffTrace P (t.record1 d) rest) : AffTrace P t ((node, d) :: rest)
+
+def affRun (t : TG) (steps : List (Req × Val)) : TG := steps.foldl (fun t s => t.record1 s.2) t
+
+/-- a set of pods that match their own required affinity term and share their node requirements ends, over any
+    number of ask-then-record steps on any candidate nodes, with all its matches in one domain -/
+theorem C02_affinity_single_domain (P : Req) (t : TG) (h : t.Inv) (hA : AtMostOne t P)
+    (steps : List (Req × Val)) (ht : AffTrace P t steps) : AtMostOne (affRun t steps) P := by
+  induction ht with
+  | nil t => exact hA
+  | cons t node d rest hc _ ih =>
+    exact ih (inv_record1 t d h) (C02_affinity_step t h P node d hA hc)
+
+/-! ## topology spread -/
+
+theorem spreadValid_sound (t : TG) (self : Bool) (pod node : Req) (d : Val)
+    (hd : d ∈ t.spreadValid self pod node) :
+    (t.domains.cnt d : Int) + selfInc self - floor t (t.sup pod) ≤ t.maxSkew ∧ (t.domains.cnt? d).isSome = true := by
+  unfold TG.spreadValid at hd
+  rw [List.mem_filter] at hd
+  have h1 := of_decide_eq_true hd.2
+  have h2 := minCount_le_floor t (t.sup pod)
+  refine ⟨by omega, ?_⟩
+  have hc := hd.1
+  unfold TG.spreadCand at hc
+  split at hc
+  · rw [List.mem_filter] at hc; exact hc.2
+  · rw [List.mem_filter] at hc; exact (mem_keys _ _).1 hc.1
+
+theorem spreadGet_cases (t : TG) (self : Bool) (pod node : Req) :
+    (∃ h, t.isHost = true ∧
+      t.spreadGet self pod node =
+        if (t.domains.cnt h : Int) + selfInc self ≤ t.maxSkew then ⟨[h], [h]⟩ else ⟨[], []⟩) ∨
+    t.spreadGet self pod node =
+      ⟨t.spreadValid self pod node, t.least (selfInc self) (t.spreadValid self pod node)⟩ := by
+  unfold TG.spreadGet
+  split
+  · rename_i h hh _
+    exact Or.inl ⟨h, hh, rfl⟩
+  · exact Or.inr rfl
+
+/-- what `nextDomainTopologySpread` returns is a valid domain: with the pod counted in, it stays within `maxSkew`
+    of the floor (zero for hostname, else the kube-scheduler global minimum, which the code lowers to zero while
+    fewer than `minDomains` domains are eligible) -/
+theorem C02_spread_sound (t : TG) (self : Bool) (pod node : Req) (d : Val)
+    (hd : d ∈ (t.spreadGet self pod node).choices) :
+    d ∈ (t.spreadGet self pod node).valid ∧
+    (t.domains.cnt d : Int) + selfInc self - floor t (t.sup pod) ≤ t.maxSkew := by
+  rcases spreadGet_cases t self pod node with ⟨h, hh, e⟩ | e
+  · rw [e] at hd ⊢
+    by_cases hc : (t.domains.cnt h : Int) + selfInc self ≤ t.maxSkew
+    · rw [if_pos hc] at hd ⊢
+      simp only [List.mem_singleton] at hd; subst hd
+      refine ⟨by simp, ?_⟩
+      simp only [floor, hh, if_true]; omega
+    · rw [if_neg hc] at hd; simp at hd
+  · rw [e] at hd ⊢
+    have hv : d ∈ t.spreadValid self pod node := by
+      unfold TG.least at hd
+      exact (List.mem_filter.1 hd).1
+    exact ⟨hv, (spreadValid_sound t self pod node d hv).1⟩
+
+/-- … and among the valid domains it is a least-loaded one -/
+theorem C02_spread_least (t : TG) (self : Bool) (pod node : Req) (d d' : Val)
+    (hd : d ∈ (t.spreadGet self pod node).choices) (hd' : d' ∈ (t.spreadGet self pod node).valid) :
+    t.domains.cnt d ≤ t.domains.cnt d' := by
+  rcases spreadGet_cases t self pod node with ⟨h, hh, e⟩ | e
+  · rw [e] at hd hd'
+    by_cases hc : (t.domains.cnt h : Int) + selfInc self ≤ t.maxSkew
+    · rw [if_pos hc] at hd hd'
+      simp only [List.mem_singleton] at hd hd'; rw [hd, hd']; exact Nat.le_refl _
+    · rw [if_neg hc] at hd; simp at hd
+  · rw [e] at hd hd'
+    unfold TG.least at hd
+    rw [List.mem_filter] at hd
+    have hb := hd.2
+    simp only [beq_iff_eq] at hb
+    have := (le_foldl_min' (fun x => (t.domains.cnt x : Int) + selfInc self) (t.spreadValid self pod node) maxI32
+      ((t.domains.cnt d : Int) + selfInc self)).1 (by rw [← hb]; exact Int.le_refl _)
+    have h3 : (t.domains.cnt d : Int) + selfInc self ≤ (t.domains.cnt d' : Int) + selfInc self := this.2 d' hd'
+    omega
+
+/-- the skew over the domains that count: every such domain is within `K` of the floor -/
+def SkewOK (t : TG) (s : Val → Bool) (K : Int) : Prop :=
+  ∀ d, s d = true → (t.domains.cnt d : Int) - floor t s ≤ K
+
+theorem floor_mono_record1 (t : TG) (h : t.Inv) (s : Val → Bool) (d : Val)
+    (hreg : t.isHost = false → (t.domains.cnt? d).isSome = true) :
+    floor t s ≤ floor (t.record1 d) s := by
+  unfold floor
+  have hi : (t.record1 d).isHost = t.isHost := rfl
+  rw [hi]
+  by_cases hh : t.isHost = true
+  · simp [hh]
+  · have hh' : t.isHost = false := by simpa using hh
+    rw [hh']
+    show gmin t s ≤ gmin (t.record1 d) s
+    rw [le_gmin_iff _ (inv_record1 t d h).keysNodup]
+    have self := (le_gmin_iff t h.keysNodup s (gmin t s)).1 (Int.le_refl _)
+    refine ⟨self.1, fun x c hc hs => ?_⟩
+    simp only [TG.record1, cnt?_put] at hc
+    by_cases hx : x = d
+    · simp only [hx, if_true, Option.some.injEq] at hc
+      obtain ⟨c0, hc0⟩ := Option.isSome_iff_exists.1 (hreg hh')
+      have h1 := self.2 d c0 hc0 (hx ▸ hs)
+      have h2 := cnt_of_cnt? _ _ _ hc0
+      omega
+    · simp only [hx, if_false] at hc
+      exact self.2 x c hc hs
+
+/-- one ask-then-record step of a pod that carries and matches the constraint keeps the skew bound -/
+theorem C02_spread_step (t : TG) (h : t.Inv) (pod node : Req) (d : Val) (K : Int) (hK : t.maxSkew ≤ K)
+    (hd : d ∈ (t.spreadGet true pod node).choices)
+    (hok : SkewOK t (t.sup pod) K) : SkewOK (t.record1 d) ((t.record1 d).sup pod) K := by
+  have hsup : (t.record1 d).sup pod = t.sup pod := rfl
+  rw [hsup]
+  have hsound := (C02_spread_sound t true pod node d hd).2
+  have hreg : t.isHost = false → (t.domains.cnt? d).isSome = true := by
+    intro hh
+    rcases spreadGet_cases t true pod node with ⟨_, h1, _⟩ | e
+    · rw [hh] at h1; cases h1
+    · rw [e] at hd
+      unfold TG.least at hd
+      exact (spreadValid_sound t true pod node d (List.mem_filter.1 hd).1).2
+  have hfl := floor_mono_record1 t h (t.sup pod) d hreg
+  intro x hx
+  rw [cnt_record1]
+  by_cases e : x = d
+  · simp only [e, if_true]
+    simp only [selfInc, if_true] at hsound
+    push_cast
+    omega
+  · simp only [e, if_false]
+    have := hok x hx
+    omega
+
+def placeRun (t : TG) (steps : List (Req × Val)) : TG := steps.foldl (fun t s => t.record1 s.2) t
+
+inductive SpreadTrace (pod : Req) : TG → List (Req × Val) → Prop
+  | nil (t : TG) : SpreadTrace pod t []
+  | cons (t : TG) (node : Req) (d : Val) (rest : List (Req × Val))
+      (hd : d ∈ (t.spreadGet true pod node).choices)
+      (hrest : SpreadTrace pod (t.record1 d) rest) : SpreadTrace pod t ((node, d) :: rest)
+
+/-- over any number of placements of pods that carry and match a DoNotSchedule constraint (same node
+    requirements, any candidate nodes), the skew among the domains that count never passes
+    `max (skew before the pass) maxSkew` -/
+theorem C02_spread_never_exceeds (pod : Req) (t : TG) (h : t.Inv) (K : Int) (hK : t.maxSkew ≤ K)
+    (hok : SkewOK t (t.sup pod) K) (steps : List (Req × Val)) (ht : SpreadTrace pod t steps) :
+    SkewOK (placeRun t steps) ((placeRun t steps).sup pod) K := by
+  induction ht with
+  | nil t => exact hok
+  | cons t node d rest hd _ ih =>
+    exact ih (inv_record1 t d h) hK (C02_spread_step t h pod node d K hK hd hok)
+
+
+theorem eraseDups_single (d : Val) : [d].eraseDups = [d] := by
+  simp [List.eraseDups, List.eraseDupsBy, List.eraseDupsBy.loop]
+
+/-! ## the executable rule used on the implementation (`Karp/Spec/TopoSpec.lean`) holds of every model answer -/
+
+theorem C02_anti_spec (t : TG) (h : t.Inv) (pod node : Req) : antiOK t.domains (t.antiGet pod node) = true := by
+  unfold antiOK
+  rw [List.all_eq_true]
+  intro d hd
+  simp [C02_anti_sound t h pod node d hd]
+
+theorem noCompat_all (t : TG) (h : t.Inv) (pod : Req) (hn : NoCompat t pod) :
+    t.domains.all (fun p => !pod.has p.1 || p.2 == 0) = true := by
+  rw [List.all_eq_true]
+  intro p hp
+  by_cases hh : pod.has p.1 = true
+  · have := hn p.1 p.2 (cnt?_of_mem _ h.keysNodup _ _ hp) hh
+    simp [this]
+  · simp [hh]
+
+theorem C02_affinity_spec_fixed (t : TG) (h : t.Inv) (self : Bool) (pod node : Req) (ds : List Val)
+    (e : t.affGet self pod node = .fixed ds) : affinityOK t.domains self pod.has ds = true := by
+  unfold affinityOK
+  rw [List.all_eq_true]
+  intro d hd
+  have := C02_affinity_fixed t h self pod node ds e d hd
+  rcases this with ⟨hp, hpos | ⟨hs, hn, hds⟩⟩
+  · simp [hp, hpos]
+  · simp [hp, hs, hds, noCompat_all t h pod hn, eraseDups_single]
+
+theorem C02_affinity_spec_pick (t : TG) (h : t.Inv) (self : Bool) (pod node : Req) (cs : List Val)
+    (e : t.affGet self pod node = .pick cs) (d : Val) (hd : d ∈ cs) :
+    affinityOK t.domains self pod.has [d] = true := by
+  have := C02_affinity_pick t h self pod node cs e
+  unfold affinityOK
+  simp [(this.2.2 d hd).1, this.1, noCompat_all t h pod this.2.1, eraseDups_single]
+
+theorem globalMin_eq (t : TG) (s : Val → Bool) : globalMin t.domains t.isHost t.minDomains s = t.minCount s := by
+  unfold globalMin TG.minCount
+  by_cases hh : t.isHost = true
+  · simp [hh]
+  · simp only [hh]
+    cases t.minDomains with
+    | none => simp
+    | some md =>
+      by_cases hc : (((t.domains.filter (fun p => s p.1)).length : Nat) : Int) < md
+      · simp [hc]
+      · simp [hc]
+
+theorem C02_spread_spec (t : TG) (self : Bool) (pod node : Req) (d : Val)
+    (hd : d ∈ (t.spreadGet self pod node).choices) :
+    spreadOK t.domains t.isHost t.maxSkew t.minDomains self (t.sup pod) [d] = true := by
+  unfold spreadOK
+  rw [globalMin_eq]
+  have hmin : (t.domains.cnt d : Int) + selfInc self - t.minCount (t.sup pod) ≤ t.maxSkew := by
+    rcases spreadGet_cases t self pod node with ⟨h, hh, e⟩ | e
+    · rw [e] at hd
+      by_cases hc : (t.domains.cnt h : Int) + selfInc self ≤ t.maxSkew
+      · rw [if_pos hc] at hd
+        simp only [List.mem_singleton] at hd; subst hd
+        simp only [TG.minCount, hh, if_true]; omega
+      · rw [if_neg hc] at hd; simp at hd
+    · rw [e] at hd
+      unfold TG.least at hd
+      have hv := (List.mem_filter.1 hd).1
+      unfold TG.spreadValid at hv
+      exact of_decide_eq_true (List.mem_filter.1 hv).2
+  simp [hmin, eraseDups_single]
+
+/-! ## the hypotheses are satisfiable (non-vacuity) -/
+
+def zoneIn (vs : List Val) : Req := { key := "topology.kubernetes.io/zone", complement := false, values := vs }
+def zoneAny : Req := { key := "topology.kubernetes.io/zone", complement := true, values := [] }
+/-- three zones, two matching pods in `a`, one in `b` -/
+def exT (k : Kind) : TG := (TG.new k false 1 none false ["a", "b", "c"]).run [.record ["a", "a", "b"]]
+
+example : (exT .spread).spreadGet true zoneAny zoneAny = ⟨["c"], ["c"]⟩ := by decide
+example : (exT .spread).spreadGet true (zoneIn ["a", "b"]) (zoneIn ["a", "b"]) = ⟨["b"], ["b"]⟩ := by decide
+example : SpreadTrace zoneAny (exT .spread) [(zoneAny, "c")] :=
+  .cons _ _ _ _ (by decide) (.nil _)
+example : (exT .anti).antiGet zoneAny zoneAny = ["c"] := by decide
+example : AntiTrace (exT .anti) [⟨zoneAny, zoneAny, ["c"]⟩] :=
+  .cons _ _ _ (by decide) (by decide) (.nil _)
+example : ∃ ds, (exT .affinity).affGet false zoneAny (zoneIn ["b", "c"]) = .fixed ds ∧ ds = ["b"] := ⟨_, by decide, rfl⟩
+example : ∃ cs, (TG.new .affinity false 1 none false ["a", "b"]).affGet true zoneAny (zoneIn ["b"]) = .pick cs ∧ cs = ["b"] :=
+  ⟨_, by decide, rfl⟩
+example : affChosen (TG.new .affinity false 1 none false ["a", "b"]) true zoneAny (zoneIn ["b"]) "b" :=
+  Or.inr ⟨["b"], by decide, by decide⟩
+
 end Karp.C02
